@@ -6,6 +6,7 @@ CONSTANTS
   Uris = {}
   Texts = {}
   Keys = {}
+  MaxLevel = 99
   InitMode = "all"
   LogFields = {"name", "kids"}
   Ops = {"add_child", "insert", "remove_child", "remove_child_fail", "remove_children", "replace_child", "replace_child_fail", "shift", "shift_fail"}
